@@ -395,6 +395,12 @@ func (b *Broker) setSession(client *Client, connect *packets.ConnectPacket) {
 		client.session = prevSess
 	} else {
 		if prevSess != nil {
+			// the previous session is discarded: remove its subscriptions now. They are keyed by
+			// the client id, which from here on belongs to the new session; leaving them to the
+			// teardown of the superseded connection would deliver them to the new connection
+			// until that teardown happens.
+			topics, _, _ := prevSess.allSubscribes()
+			b.topicMgr.unsubscribe(topics, connect.ClientIdentifier)
 			prevSess.close()
 		}
 		client.session = b.sessMgr.newSessionFromConn(connect)
